@@ -33,6 +33,9 @@ type cStruct struct {
 	B string
 }
 type sStruct struct{ S []int }
+type stringerT struct{ N int }
+
+func (s stringerT) String() string { return fmt.Sprintf("stringer-%d", s.N) }
 
 func classReps(class string) []any {
 	one := 1
@@ -84,7 +87,7 @@ func classReps(class string) []any {
 	case "mapslice":
 		return []any{[]map[string]any{{"a": 1}, {"b": 2}}}
 	case "otherslice":
-		return []any{[]bool{true}, []*int{&one}, [][]int{{1}, {2, 3}}, []cStruct{{1, "x"}}, []any{map[string]any{"k": 1}}[0:1:1]}
+		return []any{[]bool{true}, []*int{&one}, [][]int{{1}, {2, 3}}, []cStruct{{1, "x"}}, []byte("ab"), []any{map[string]any{"k": 1}}[0:1:1]}
 	case "nilslice":
 		return []any{[]int(nil), []bool(nil), []string(nil)}
 	case "selfslice":
@@ -100,19 +103,21 @@ func classReps(class string) []any {
 	case "chan":
 		return []any{make(chan int)}
 	case "ptr":
-		return []any{&one, &cStruct{1, "p"}}
+		return []any{&one, &cStruct{1, "p"}, errors.New("an error value is a pointer like any other")}
 	case "nilptr":
 		return []any{(*int)(nil)}
 	case "array":
 		return []any{[2]int{1, 2}, [1]any{[]int{1}}}
 	case "cstruct":
-		return []any{cStruct{1, "x"}}
+		return []any{cStruct{1, "x"}, stringerT{7}} // (a value with a String method is not a string)
 	case "sstruct":
 		return []any{sStruct{S: []int{1}}}
 	case "namedint":
-		return []any{myInt(5)}
+		// (named integer types of the standard library are named types like any other)
+		return []any{myInt(5), time.Duration(1500), reflect.Kind(3)}
 	case "namedstr":
-		return []any{myStr("s")}
+		// (json.Number is a named string type: a number only to encoding/json)
+		return []any{myStr("s"), json.Number("12"), json.Number(""), json.Number("abc"), json.Number("1.5"), json.Number("1e400")}
 	case "errresult":
 		return []any{errors.New("carried error")}
 	case "resultval":
@@ -497,6 +502,11 @@ type other struct {
 	Flag bool   `json:"flag"`
 }
 
+type order struct {
+	Billing  *tagged `json:"billing"`
+	Shipping *tagged `json:"shipping"`
+}
+
 type bindValue struct {
 	name string
 	mk   func() any
@@ -530,6 +540,13 @@ var bindValues = []bindValue{
 	{"mapchan", func() any { return map[string]any{"c": make(chan int)} }},
 	{"partialmap", func() any { return map[string]any{"name": "only-name"} }},
 	{"badfield", func() any { return map[string]any{"id": 42, "name": 5} }}, // fails part-way into a struct
+	// values in which one sub-value is reachable twice (a tree for encoding/json, which copies it out twice) ...
+	{"sharedptr", func() any { a := &tagged{1, "addr"}; return order{Billing: a, Shipping: a} }},
+	{"sharedmap", func() any { m := map[string]any{"id": 1}; return map[string]any{"dev": m, "prod": m, "id": 5} }},
+	{"sharedslice", func() any { t := []any{"a", "b"}; return []any{t, t} }},
+	{"sharedinslice", func() any { a := &tagged{2, "x"}; return []*tagged{a, a, a} }},
+	// ... and one that really contains itself (encoding/json reports an error)
+	{"cyclic", func() any { m := map[string]any{"id": 1}; m["self"] = m; return m }},
 	// typed nils are non-nil values
 	{"nilptr", func() any { return (*tagged)(nil) }},
 	{"nilmap", func() any { return map[string]any(nil) }},
@@ -702,10 +719,15 @@ func runBind(carrier string, present, nilval bool, destClass string, bv bindValu
 			err = flyt.NewResult(v).Bind(dest)
 		} else {
 			s := flyt.NewSharedStore()
+			key := "k"
 			if present {
 				s.Set("k", v)
+			} else if v != nil {
+				// the key is missing although a key that looks like the first segment of a path to it exists
+				s.Set("k", v)
+				key = []string{"k.name", "k.t", "missing", "k.0", "k.", ".k", "k.a.b"}[destIdx%7]
 			}
-			err = s.Bind("k", dest)
+			err = s.Bind(key, dest)
 			if present {
 				after, _ := s.Get("k")
 				if !nilval && !sameRef(after, v) && !reflect.DeepEqual(after, v) {
@@ -772,6 +794,7 @@ type cfgStep struct {
 type cfgProbe struct {
 	mu       sync.Mutex
 	failExec bool
+	big      bool // some step sets the retry budget beyond 32 bits
 	called   map[string]int // phase -> id of the function that ran last
 	attempts int32
 	inflight int32
@@ -823,6 +846,11 @@ func runConfigScenarioOpt(kind string, steps []cfgStep, second bool) []Event {
 		evs = append(evs, Event{"ev": "cfgstep", "param": s.Param, "form": s.Form, "val": s.Val, "sty": sty})
 	}
 	p := &cfgProbe{called: map[string]int{}, barrier: make(chan struct{})}
+	for _, s := range steps {
+		if s.Param == "retries" && s.Val == 4 {
+			p.big = true
+		}
+	}
 	var boom = errors.New("probe failure")
 	// settings the node's own prep callback applies to the node while it runs (form "inprep"): the last settings of all
 	var lateBase *flyt.BaseNode
@@ -849,6 +877,9 @@ func runConfigScenarioOpt(kind string, steps []cfgStep, second bool) []Event {
 	}
 
 	prepFn := func(id int) func(context.Context, *flyt.SharedStore) (flyt.Result, error) {
+		if id == 0 {
+			return nil // "no function": a setting like any other, it takes the parameter back to its default
+		}
 		return func(ctx context.Context, s *flyt.SharedStore) (flyt.Result, error) {
 			p.mark("prep", id)
 			applyInPrep()
@@ -876,8 +907,8 @@ func runConfigScenarioOpt(kind string, steps []cfgStep, second bool) []Event {
 				p.once.Do(func() { close(p.barrier) })
 			}
 		}
-		if p.failExec || item == 1 {
-			return boom
+		if (p.failExec && !(p.big && atomic.LoadInt32(&p.attempts) > 4)) || item == 1 {
+			return boom // (under a budget beyond 32 bits the "always failing" exec gives in at its fifth attempt)
 		}
 		if item > 0 {
 			time.Sleep(2 * time.Millisecond)
@@ -885,6 +916,9 @@ func runConfigScenarioOpt(kind string, steps []cfgStep, second bool) []Event {
 		return nil
 	}
 	execFn := func(id int) func(context.Context, flyt.Result) (flyt.Result, error) {
+		if id == 0 {
+			return nil // "no function": a setting like any other, it takes the parameter back to its default
+		}
 		return func(ctx context.Context, r flyt.Result) (flyt.Result, error) {
 			item := 0
 			if v, ok := r.Value().(int); ok {
@@ -905,6 +939,9 @@ func runConfigScenarioOpt(kind string, steps []cfgStep, second bool) []Event {
 		}
 	}
 	postFn := func(id int) func(context.Context, *flyt.SharedStore, flyt.Result, flyt.Result) (flyt.Action, error) {
+		if id == 0 {
+			return nil // "no function": a setting like any other, it takes the parameter back to its default
+		}
 		return func(ctx context.Context, s *flyt.SharedStore, a, b flyt.Result) (flyt.Action, error) {
 			p.mark("post", id)
 			p.sawPrep(a.Value())
@@ -941,6 +978,9 @@ func runConfigScenarioOpt(kind string, steps []cfgStep, second bool) []Event {
 		}
 	}
 	fbFn := func(id int) func(any, error) (any, error) {
+		if id == 0 {
+			return nil // "no function": a setting like any other, it takes the parameter back to its default
+		}
 		return func(a any, err error) (any, error) { p.mark("fb", id); return "fallback", nil }
 	}
 	bprepFn := func(id int) func(context.Context, *flyt.SharedStore) ([]flyt.Result, error) {
@@ -966,7 +1006,7 @@ func runConfigScenarioOpt(kind string, steps []cfgStep, second bool) []Event {
 	baseOpt := func(s cfgStep) flyt.NodeOption {
 		switch s.Param {
 		case "retries":
-			return flyt.WithMaxRetries(s.Val)
+			return flyt.WithMaxRetries(retriesVal(s.Val))
 		case "wait":
 			return flyt.WithWait(time.Duration(s.Val) * time.Millisecond)
 		case "conc":
@@ -1038,7 +1078,7 @@ func runConfigScenarioOpt(kind string, steps []cfgStep, second bool) []Event {
 				case s.Form == "bld":
 					switch s.Param {
 					case "retries":
-						b = b.WithMaxRetries(s.Val)
+						b = b.WithMaxRetries(retriesVal(s.Val))
 					case "wait":
 						b = b.WithWait(time.Duration(s.Val) * time.Millisecond)
 					case "conc":
@@ -1075,7 +1115,7 @@ func runConfigScenarioOpt(kind string, steps []cfgStep, second bool) []Event {
 				}
 			}
 			node = b
-			probe["retries"], probe["wait"] = b.GetMaxRetries(), int(b.GetWait()/time.Millisecond)
+			probe["retries"], probe["wait"] = retriesTok(b.GetMaxRetries()), int(b.GetWait()/time.Millisecond)
 			probe["conc"] = b.GetBatchConcurrency()
 		} else {
 			if second {
@@ -1090,7 +1130,7 @@ func runConfigScenarioOpt(kind string, steps []cfgStep, second bool) []Event {
 				case s.Form == "bld":
 					switch s.Param {
 					case "retries":
-						b = b.WithMaxRetries(s.Val)
+						b = b.WithMaxRetries(retriesVal(s.Val))
 					case "wait":
 						b = b.WithWait(time.Duration(s.Val) * time.Millisecond)
 					case "conc":
@@ -1111,7 +1151,7 @@ func runConfigScenarioOpt(kind string, steps []cfgStep, second bool) []Event {
 				}
 			}
 			node = b
-			probe["retries"], probe["wait"] = b.GetMaxRetries(), int(b.GetWait()/time.Millisecond)
+			probe["retries"], probe["wait"] = retriesTok(b.GetMaxRetries()), int(b.GetWait()/time.Millisecond)
 			probe["conc"] = b.GetBatchConcurrency()
 		}
 		if base.GetBatchErrorHandling() == "stop" {
@@ -1156,6 +1196,25 @@ func runConfigScenarioOpt(kind string, steps []cfgStep, second bool) []Event {
 }
 
 // ---------------------------------------------------------------------------
+
+// the retry budget value 4 of the configuration table stands for a budget beyond 32 bits
+const bigRetries = 1<<32 + 3
+
+func retriesVal(v int) int {
+	if v == 4 {
+		return bigRetries
+	}
+	return v
+}
+func retriesTok(x int) int {
+	switch {
+	case x == bigRetries:
+		return 4
+	case x < 0 || x > 3:
+		return 99
+	}
+	return x
+}
 
 // pool size semantics: a size <= 0 means one worker (C19), never none and never more
 func poolSizeProbe(size int) Event {
@@ -1401,6 +1460,9 @@ func init() {
 				switch prm {
 				case "retries":
 					val = r.Intn(4)
+					if kind == "node" && r.Intn(6) == 0 {
+						val = 4 // a budget beyond 32 bits
+					}
 				case "wait", "conc":
 					val = []int{0, 2}[r.Intn(2)]
 				case "mode":
@@ -1420,6 +1482,9 @@ func init() {
 				}
 				if prm == "prep" && kind == "node" && r.Intn(3) == 0 {
 					sty = "ar"
+				}
+				if !base && kind == "node" && (sty == "r" || sty == "n") && r.Intn(5) == 0 {
+					val = 0 // the parameter is set to "no function"
 				}
 				s := cfgStep{prm, form, val, sty}
 				if form == "opt" {
